@@ -101,7 +101,7 @@ fn prepare_par_result(
             exec_ctx.last_error_descriptor.meet_par_successed_end();
             Ok(())
         }
-        (SubgraphResult::Failed(_), SubgraphResult::Failed(err)) => Err(err),
+        (SubgraphResult::Failed(err), SubgraphResult::Failed(_)) => Err(err),
     }
 }
 
